@@ -44,6 +44,12 @@ func patch(
 		}
 		return o, nil
 	}
+	if strategy == strictPatchStrategy && len(pathAhead) > 0 {
+		// A set or multiset path element remains but this is not an array.
+		return nil, fmt.Errorf(
+			"found %v at %v: expected JSON array",
+			node.Json(), pathBehind)
+	}
 	if len(oldValues) > 1 || len(newValues) > 1 {
 		return patchErrNonSetDiff(oldValues, newValues, pathBehind)
 	}
